@@ -90,8 +90,56 @@ def stable():
     print("stable-phase scenarios written", n)
 
 
+EARLY = {
+    # phases whose ENTRY does several things one after the other (valve sequencing, sleeps, asks): (opts, actions up to and
+    # including the command that leads there, (actor, phase))
+    "wash_backwash": (WASH, [["temp", "pool", 28.0], ["tank", 80], ["mqtt", "/settings/mode", "eco"], ["run", 20], ["mqtt", "/settings/mode", "wash"]], ("Filtration", "wash_backwash")),
+    "wash_backwash_auto": (WASH, [["temp", "pool", 28.0], ["tank", 80], ["mqtt", "/status/filtration/backwash/last", "Mon Jan  1 10:00:00 2024"], ["mqtt", "/settings/mode", "eco"]], ("Filtration", "wash_backwash")),
+    "wash_rinse": (WASH, [["temp", "pool", 28.0], ["tank", 80], ["mqtt", "/settings/mode", "eco"], ["run", 20], ["mqtt", "/settings/mode", "wash"], ["run", 100]], ("Filtration", "wash_rinse")),
+    "opening_standby": (OPTS, [["mqtt", "/settings/mode", "eco"], ["run", 20], ["mqtt", "/settings/mode", "standby"]], ("Filtration", "opening_standby")),
+    "closing": (OPTS, [["mqtt", "/settings/mode", "eco"], ["run", 20], ["mqtt", "/settings/mode", "standby"], ["run", 400], ["mqtt", "/settings/mode", "eco"]], ("Filtration", "closing")),
+    "standby_boost": (OPTS, [["mqtt", "/settings/mode", "eco"], ["run", 20], ["mqtt", "/settings/mode", "standby"], ["run", 10]], ("Filtration", "standby_boost")),
+    "eco_tank": (OPTS, [["temp", "pool", 28.0], ["mqtt", "/settings/filtration/duration", "36000"], ["mqtt", "/settings/filtration/tank_percentage", "0.5"], ["mqtt", "/settings/mode", "eco"], ["run", 600]], ("Filtration", "eco_tank")),
+    "heating_running": (OPTS, HEAT[:-1] + [["run", 600]], ("Filtration", "heating_running")),
+    "heating_delay_none": (OPTS, HEAT + [["temp", "pool", 31.0]], ("Filtration", "heating_delay_none")),
+    "comfort": (OPTS, [["temp", "pool", 28.0], ["mqtt", "/settings/mode", "eco"], ["run", 20], ["mqtt", "/settings/mode", "standby"], ["run", 400], ["mqtt", "/settings/mode", "comfort"]], ("Filtration", "comfort")),
+    "sweep": (OPTS, [["temp", "pool", 28.0], ["mqtt", "/settings/mode", "eco"], ["run", 20], ["mqtt", "/settings/mode", "standby"], ["run", 400], ["mqtt", "/settings/mode", "sweep"]], ("Filtration", "sweep")),
+    "wintering_stir": (COLD, [["temp", "air", -5.0], ["temp", "ncc", -5.0], ["mqtt", "/settings/mode", "wintering"], ["run", 10700]], ("Filtration", "wintering_stir")),
+    "disinfection_running": (OPTS, [["mqtt", "/settings/mode", "eco"], ["run", 1100]], ("Disinfection", "running_adjusting")),
+}
+
+
+def early():
+    """a command in the first seconds of a phase: the recipe is run up to its last action, then in steps of 0.25 s until the
+    phase is entered; the command (halt / another mode) follows 0.3 s, 1.2 s, 2.6 s and 3.7 s after the entry"""
+    n = 0
+    for name, (opts, prefix, (actor, phase)) in EARLY.items():
+        r = scenario.Runner(opts, [])
+        for a in prefix:
+            r.do(a)
+        t = 0.0
+        seen = r.sys.state(actor) == phase
+        while not seen and t < 700:
+            r.do(["run", 0.25])
+            t += 0.25
+            seen = r.sys.state(actor) == phase or (phase == "running_adjusting" and r.sys.state(actor).startswith("running"))
+        r.world.close()
+        if not seen:
+            print(f"early recipe {name}: {actor}.{phase} not reached (states {r.sys.states()})")
+            continue
+        for i, off in enumerate((0.3, 1.2, 2.6, 3.7)):
+            for cmd in ("halt", "eco") if not name.startswith(("wash", "opening", "closing")) else ("halt", "eco", "standby", "wintering"):
+                acts = prefix + ([["run", max(0.0, t - 0.25) + off]]) + [["mqtt", "/settings/mode", cmd], ["run", 20], ["mqtt", "/settings/mode", "halt"], ["run", 12]]
+                json.dump({"opts": opts, "actions": acts}, open(os.path.join(VERIF, "corpus", f"early_{name}_{cmd}_{i}.json"), "w"))
+                n += 1
+    print("early-command scenarios written", n)
+
+
 def main():
+    if "--early" in sys.argv:
+        return early()
     stable()
+    early()
     n = 0
     for name, (opts, prefix, (actor, phase), after) in RECIPES.items():
         r = scenario.run_scenario({"opts": opts, "actions": prefix}, [])
